@@ -179,3 +179,38 @@ def sorted_values_regathered(ctx, chk, rule, modules, key_prefix):
         chk.errors.append("%s positive control (sorted values gathered by the sorting permutation) did not behave: %d / %d" % (rule, len(bad), len(good)))
     chk.count("%s functions scanned for sorting permutations" % key_prefix, n)
     return n
+
+
+FIXED_ORDER = ("fixed_quad", "trapezoid", "trapz", "simpson", "simps", "romb", "cumulative_trapezoid", "cumtrapz", "cumulative_simpson", "newton_cotes")
+
+
+def fixed_order_quadrature(ctx, chk, rule, modules, key_prefix, why):
+    """An integral of the property is computed by the adaptive routine (or in closed form) on every path: a fixed-order rule
+    (`fixed_quad`, trapezoid, Simpson, Romberg on samples) has no error control, so its value is not the integral to any
+    stated tolerance.  Zero instances on the pinned tree; positive control."""
+    def find(tree):
+        out = []
+        for c in ast.walk(tree):
+            if isinstance(c, ast.Call):
+                nm = c.func.attr if isinstance(c.func, ast.Attribute) else (c.func.id if isinstance(c.func, ast.Name) else None)
+                if nm in FIXED_ORDER:
+                    out.append(c)
+        return out
+    n = 0
+    for modname in modules:
+        m = ctx.repo.modules.get(modname)
+        if m is None:
+            continue
+        for q, fi in sorted(m.functions.items()):
+            if ".<locals>." in q:
+                continue
+            n += 1
+            for c in find(fi.node):
+                chk.ob(rule, False, where_of(fi, c), "%s: a fixed-order quadrature rule supplies the integral on some path" % ast.unparse(c)[:70],
+                       "the integral comes from the adaptive routine (scipy.integrate.quad, to its tolerance) or from a closed form, on every path",
+                       key="%s|fixed-order|%s" % (key_prefix, q), why=why, local=True)
+    ctl = ast.parse("def f(g, a, b):\n    v, e, info, *msg = quad(g, a, b, full_output=1)\n    if msg:\n        v = fixed_quad(g, a, b)[0]\n    return v\n")
+    if len(find(ctl)) != 1 or find(ast.parse("def f(g, a, b):\n    return quad(g, a, b)[0]\n")):
+        chk.errors.append("%s positive control (fixed-order quadrature) did not behave" % rule)
+    chk.count("%s functions scanned for fixed-order quadrature" % key_prefix, n)
+    return n
